@@ -136,6 +136,13 @@ Proof.
     eapply WF_bank_only; [eapply bank_mint_only; eassumption|].
     destruct W. constructor; simpl; try assumption. apply keys_set_NoDup. assumption.
   - apply do_upgrade_inv in H. subst s'. assumption.
+  - clear I. revert s W H. induction evs as [|[[[c from] to] amt] r IH]; simpl; intros s W H.
+    + inversion H. subst. assumption.
+    + inv_bind H. apply (IH x); [|assumption].
+      apply do_hook_inv in E. destruct E as (sym0 & t & s2 & _ & _ & _ & _ & _ & _ & Hm & Hp).
+      eapply WF_bank_only; [eapply bank_pay_only; eassumption|].
+      eapply WF_bank_only; [eapply bank_mint_only; eassumption|].
+      destruct W. constructor; simpl; try assumption. apply keys_set_NoDup. assumption.
 Qed.
 
 Lemma step_WF s m : IdInv s -> WF s -> WF (step s m).
